@@ -4,6 +4,8 @@ from typing import TYPE_CHECKING
 
 import numpy as np
 
+from funtracks.exceptions import InvalidActionError
+
 from ..actions._base import ActionGroup
 from ..actions.update_segmentation import UpdateNodeSeg
 from .user_add_node import UserAddNode
@@ -44,6 +46,14 @@ class UserUpdateSegmentation(ActionGroup):
         node_to_select = None
         if self.tracks.segmentation is None:
             raise ValueError("Cannot update non-existing segmentation.")
+        if new_value != 0 and updated_pixels and self.tracks.graph.has_node(new_value):
+            painted_time = updated_pixels[0][0][0][0]
+            if self.tracks.get_time(new_value) != painted_time:
+                raise InvalidActionError(
+                    f"Cannot paint with label {new_value} in time point {painted_time}: "
+                    f"node {new_value} lives in time point "
+                    f"{self.tracks.get_time(new_value)}"
+                )
         for pixels, old_value in updated_pixels:
             ndim = len(pixels)
             if old_value == 0:
